@@ -96,6 +96,46 @@ def run(ctx, rep) -> None:
             else:
                 rep.fail("C05.R2", f"{pi.handler}:{cs}", f"the stage becomes {sorted(final)} durably but no continuation is pushed in that commit: nothing will ever drive the workflow further", c.site[0], c.site[1], disc=cs)
     rep.floor("stage-completing transactions", n2, 30)
+    # decision table of the continuation (siblings: CompleteStage success branch, SkipStage; reference: StabilizeHandler.start_next)
+    TABLE = {
+        "StartStage": {"downstream_stages": True},
+        "ContinueParentStage": {"downstream_stages": False, "phase is not None": True, "parent_id": True},
+        "CompleteWorkflow": {"downstream_stages": False, "phase is not None": False},
+    }
+    nt = 0
+    for pi in infos:
+        if pi.handler not in ("CompleteStageHandler", "SkipStageHandler"):
+            continue
+        got = {}
+        for e in pi.trace:
+            if e.kind == "guard":
+                raw = str(e.get("raw"))
+                if raw.startswith("not "):
+                    got[raw[4:]] = not e.get("truth")
+                else:
+                    got[raw] = e.get("truth")
+        if "downstream_stages" not in got:
+            continue        # not the downstream-selection branch
+        for c in pi.seq:
+            if c.kind != "TXN" or not any(e.kind == "store_stage" and e.get("own") for e in c.effects):
+                continue
+            if any(e.kind == "push" and e.get("cls") == "CancelStage" for e in c.effects) or pi.synthetic_after is not None:
+                continue        # failure propagation, not the success continuation
+            for e in c.effects:
+                if e.kind == "push" and e.get("cls") in TABLE:
+                    if e.get("cls") == "StartStage" and e.get("stage_id") == "message.stage_id":
+                        continue
+                    req = TABLE[e.get("cls")]
+                    bad = {k: got.get(k) for k, v in req.items() if got.get(k) is not None and got.get(k) != v}
+                    missing = [k for k in req if k not in got]
+                    nt += 1
+                    key = ("tab", pi.handler, e.get("cls"), tuple(sorted(bad.items())), tuple(missing))
+                    if key in seen:
+                        continue
+                    seen.add(key)
+                    rep.check(not bad and not missing, "C05.R2", f"{pi.handler}: {e.get('cls')} chosen under the reference conditions", f"required {req}; path decided {dict((k, got.get(k)) for k in req)}",
+                              e.site[0], e.site[1], disc=f"table:{e.get('cls')}:{sorted(bad.items())}:{missing}")
+    rep.floor("continuation choices checked against the decision table", nt, 10)
 
     # ---- R3 continuation effectiveness ------------------------------------------------------------------
     n3 = 0
